@@ -30,7 +30,8 @@ type CaseC13 struct {
 	Cycle     bool                     `json:"cycle,omitempty"` // the schedule repeats instead of falling back to one byte per read
 	EOFWith   bool                     `json:"eof_with"`
 	Bufio     bool                     `json:"bufio"`
-	Align     int                      `json:"align,omitempty"`      // > 0: blanks before document AlignDoc make it END on a multiple of Align bytes (buffer and block boundaries)
+	Respell   int                      `json:"respell,omitempty"` // JSON documents are respelled (see respellJSON) before they go into the stream
+	Align     int                      `json:"align,omitempty"`   // > 0: blanks before document AlignDoc make it END on a multiple of Align bytes (buffer and block boundaries)
 	AlignDoc  int                      `json:"align_doc,omitempty"`
 	Stop      int                      `json:"stop"`                 // handlers: return false at the Stop-th document (0: never)
 	DecOpts   uint32                   `json:"dec_opts,omitempty"`   // decoder options in force for the direct and the stream decoding alike (see applyUnrelatedOptions)
@@ -98,7 +99,7 @@ func (r *schedReader) Read(p []byte) (int, error) {
 // pieces of JSON string values: structural characters, quotes and backslashes, and texts that LOOK like escapes
 // (a literal backslash followed by u0008 is six characters of data, not a backspace)
 var jsonStrPieces = []string{"a", "{", "}", "\"", "\\", " ", "[", "]", ":", ",", "\n", "é", "\t", "}{", "\\\"",
-	"\\u0008", "\\u000c", "\\u003c", "\\u0026", "\\b", "\\f", "\\n", "\b", "\f", "<", ">", "&", "\U0001F600", "\u2028", "\\u2028", "\\ud83d", "\x7f", "%", "%d", "%%", "%v", "100%"}
+	"\\u0008", "\\u000c", "\\u003c", "\\u0026", "\\b", "\\f", "\\n", "\b", "\f", "<", ">", "&", "\U0001F600", "\u2028", "\\u2028", "\\ud83d", "\x7f", "%", "%d", "%%", "%v", "100%", "/", "http://x/", "</script>"}
 
 func genJSONString(t *rapid.T) string {
 	n := rapid.IntRange(0, 5).Draw(t, "jsn")
@@ -157,7 +158,7 @@ func genC13(t *rapid.T) CaseC13 {
 			g := XGen{Opts: defaultOpts(), MixedText: true, Namespaces: true}
 			c.XDocs = append(c.XDocs, g.Elem(t, 2))
 		case "seq":
-			g := XGen{Opts: defaultOpts(), Extras: true, Namespaces: true}
+			g := XGen{Opts: defaultOpts(), Extras: true, Namespaces: true, SeqKeys: true}
 			c.XDocs = append(c.XDocs, g.Elem(t, 2))
 		default:
 			c.JDocs = append(c.JDocs, genJSONObj(t, 2))
@@ -186,6 +187,9 @@ func genC13(t *rapid.T) CaseC13 {
 	}
 	if c.Kind == "json" {
 		c.UseNumber = rapid.IntRange(0, 3).Draw(t, "usenumber") == 0
+		if rapid.IntRange(0, 3).Draw(t, "respell") == 0 {
+			c.Respell = rapid.IntRange(1, 15).Draw(t, "respellmode")
+		}
 	}
 	if rapid.IntRange(0, 9).Draw(t, "align") == 0 {
 		c.Align = rapid.SampledFrom([]int{512, 1024, 4096, 4096, 4096, 8192}).Draw(t, "alignto")
@@ -255,6 +259,10 @@ func checkC13(c CaseC13, info *Info) *Failure {
 				b, _ = json.MarshalIndent(c.JDocs[i], "", " ")
 			} else {
 				b, _ = json.Marshal(c.JDocs[i])
+			}
+			if c.Respell != 0 {
+				b = respellJSON(b, c.Respell)
+				info.Class("JSON text respelled (escaped solidus, \\u escapes, N.0 numbers, blanks)")
 			}
 			m, err := mxj.NewMapJson(b)
 			if err != nil || !reflect.DeepEqual(map[string]interface{}(m), c.JDocs[i]) {
